@@ -140,8 +140,7 @@ func (e *Ext) seqCall(x *ssa.Call) []Atom {
 	}
 	if kind, w, order := binCall(x); kind == "append" {
 		out := append([]Atom(nil), e.Seq(cc.Args[1])...)
-		f, ex, ft := e.ValueSrc(cc.Args[2])
-		return append(out, Atom{Kind: "fixed", Width: w, Order: order, Field: f, Expr: ex, Type: tstr(ft), Pos: x.Pos()})
+		return append(out, e.fixedAtoms(cc.Args[2], w, order, x.Pos())...)
 	}
 	switch prove.StaticName(cc) {
 	case "(*bytes.Buffer).Bytes":
@@ -350,9 +349,12 @@ func (e *Ext) seqFixedBuf(m ssa.Value, n int64) []Atom {
 			case *ssa.Call:
 				cc := y.Common()
 				if kind, w, order := binCall(y); kind == "put" && cc.Args[1] == buf {
-					f, ex, ft := e.ValueSrc(cc.Args[2])
-					atoms = append(atoms, Atom{Kind: "fixed", Width: w, Order: order, Field: f, Expr: ex, Type: tstr(ft), Pos: y.Pos()})
-					offs = append(offs, base)
+					run := base
+					for _, fa := range e.fixedAtoms(cc.Args[2], w, order, y.Pos()) {
+						atoms = append(atoms, fa)
+						offs = append(offs, run)
+						run += int64(fa.Width)
+					}
 					continue
 				}
 				if b, ok := cc.Value.(*ssa.Builtin); ok {
@@ -598,8 +600,7 @@ func (e *Ext) seqMinusPrefix(v ssa.Value, p *ssa.Phi) []Atom {
 			if pre == nil {
 				return nil
 			}
-			f, ex, ft := e.ValueSrc(x.Call.Args[2])
-			return append(pre, Atom{Kind: "fixed", Width: w, Order: order, Field: f, Expr: ex, Type: tstr(ft), Pos: x.Pos()})
+			return append(pre, e.fixedAtoms(x.Call.Args[2], w, order, x.Pos())...)
 		}
 	case *ssa.Phi:
 		// inner join / inner loop inside the outer loop body
@@ -980,3 +981,99 @@ func flattenAtoms(as []Atom) []Atom {
 // ByteLane exposes byteLane: v is byte #lane (0 = least significant) of the
 // integer src, srcBytes wide.
 func ByteLane(v ssa.Value) (src ssa.Value, lane, srcBytes int, ok bool) { return byteLane(v) }
+
+// fixedAtoms: the atoms of one w-byte integer write of value v. Normally one
+// atom; when v is assembled from zero-extended narrower unsigned values placed
+// at byte-aligned shifts that tile all w bytes (uint64(hi)<<32 | uint64(lo)),
+// one atom per part in wire order.
+func (e *Ext) fixedAtoms(v ssa.Value, w int, order string, pos token.Pos) []Atom {
+	one := func() []Atom {
+		f, ex, ft := e.ValueSrc(v)
+		return []Atom{{Kind: "fixed", Width: w, Order: order, Field: f, Expr: ex, Type: tstr(ft), Pos: pos}}
+	}
+	type part struct {
+		v     ssa.Value
+		shift int
+		width int
+	}
+	var parts []part
+	ok := true
+	var flat func(x ssa.Value, sh int)
+	flat = func(x ssa.Value, sh int) {
+		if !ok {
+			return
+		}
+		switch y := x.(type) {
+		case *ssa.BinOp:
+			switch y.Op {
+			case token.OR, token.ADD, token.XOR:
+				flat(y.X, sh)
+				flat(y.Y, sh)
+				return
+			case token.SHL:
+				if k, isK := constI(y.Y); isK && k >= 0 && k%8 == 0 {
+					flat(y.X, sh+int(k/8))
+					return
+				}
+			}
+			ok = false
+		case *ssa.Convert:
+			from := elemWidth(y.X.Type())
+			fb, isB := y.X.Type().Underlying().(*types.Basic)
+			if isB && fb.Info()&types.IsInteger != 0 && fb.Info()&types.IsUnsigned != 0 && from < elemWidth(y.Type()) && from >= 1 {
+				if _, isBin := y.X.(*ssa.BinOp); !isBin {
+					parts = append(parts, part{y.X, sh, from})
+					return
+				}
+			}
+			if isB && fb.Info()&types.IsInteger != 0 && from == elemWidth(y.Type()) {
+				flat(y.X, sh) // same-width reinterpretation
+				return
+			}
+			ok = false
+		default:
+			ok = false
+		}
+	}
+	flat(v, 0)
+	if !ok || len(parts) < 2 {
+		return one()
+	}
+	// tile check
+	used := make([]bool, w)
+	for _, p := range parts {
+		for i := p.shift; i < p.shift+p.width; i++ {
+			if i < 0 || i >= w || used[i] {
+				return one()
+			}
+			used[i] = true
+		}
+	}
+	for _, u := range used {
+		if !u {
+			return one()
+		}
+	}
+	// wire order: little-endian puts the low part first
+	for i := 0; i < len(parts); i++ {
+		for j := i + 1; j < len(parts); j++ {
+			less := parts[j].shift < parts[i].shift
+			if order == "BE" {
+				less = parts[j].shift > parts[i].shift
+			}
+			if less {
+				parts[i], parts[j] = parts[j], parts[i]
+			}
+		}
+	}
+	var out []Atom
+	for _, p := range parts {
+		f, ex, ft := e.ValueSrc(p.v)
+		o := order
+		if p.width == 1 {
+			o = ""
+		}
+		out = append(out, Atom{Kind: "fixed", Width: p.width, Order: o, Field: f, Expr: ex, Type: tstr(ft), Pos: pos})
+	}
+	return out
+}
